@@ -13,7 +13,7 @@ EXISTING = {"flat": ["a", "b"], "nested": ["a", "m.x", "m.y"], "attrpath": ["a",
             "attrpath1": ["m.x", "a"], "inherit": ["b"], "empty": [],
             "twins": ["z", "a.enable", "b.enable", "enable", "m.x"], "twins-inline": ["a.enable", "b.enable", "c.enable"],
             "nested-attrpath": ["a", "m.x.y", "m.k"], "same-name-family": ["users.users.alice.uid", "users.users.bob.uid", "k"],
-            "set-and-attrpath": ["a.b", "k"],
+            "set-and-attrpath": ["a.b", "k"], "deep-nested-attrpath": ["a", "m.n.x.y", "m.n.x.w", "m.n.k"],
             "attrpath-deep4": ["s.n.v.m.a", "s.n.v.m.b", "s.n.w", "k"], "attrpath-interleaved": ["s.n.a", "s.h.a", "s.n.p", "k"]}
 VALUES = ["2", '"s"', "v", "[ 1 2 ]", "{ k = 1; }"]  # `v` is a name the let wrappers bind: the written value is then a reference
 # documents whose values are references: edits go through the names to their defining bindings (C11), so the laws also compare
@@ -28,12 +28,15 @@ REF_DOCS = {
 }
 
 
-def apply(text, script):
+def apply(text, script, reparse=False):
+    """One live document object, or - `reparse` - the text of each step parsed again for the next one (successive `nima` calls)."""
     from nix_manipulator import parse
 
     src = parse(text)
     out = text
     for op, p, v in script:
+        if reparse:
+            src = parse(out)
         out = E.run_op(src, op, p, v)
     return out
 
@@ -73,16 +76,18 @@ def eval_law(item):
             if tree0 != tree1 or layers0 != layers1:
                 return "rm-then-set-does-not-restore-the-attribute-tree"
             return None
-        try:
-            a = apply(text, s1) if s1 else text
-        except (KeyError, ValueError):
-            return None  # the law is about edits that succeed
-        try:
-            b = apply(text, s2)
-        except (KeyError, ValueError) as e:
-            return f"{kind}:second-sequence-refused:{type(e).__name__}"
-        if a != b:
-            return f"{kind}:texts-differ"
+        for reparse in (False, True):
+            tag = "(each step on the re-parsed text of the previous one)" if reparse else ""
+            try:
+                a = apply(text, s1, reparse) if s1 else text
+            except (KeyError, ValueError):
+                return None  # the law is about edits that succeed
+            try:
+                b = apply(text, s2, reparse)
+            except (KeyError, ValueError) as e:
+                return f"{kind}:second-sequence-refused:{type(e).__name__}{tag}"
+            if a != b:
+                return f"{kind}:texts-differ{tag}"
         return None
     except (KeyError, ValueError):
         return None
@@ -115,6 +120,9 @@ def run(tier, seed):
             wrapper, content = doc_id.split("/")
             path = s2 if isinstance(s2, str) else s2[0][1]
             sig = f"{sym}|{path}|content={content}|wrapper={wrapper}"
+            if "second-sequence-refused" in sym and "re-parsed" in sym and wrapper in ("call", "lambda-call") and str(path).startswith("@"):
+                # consequence of a recorded defect: a scoped edit on a call-argument target emits `f let ... in {...}`, which does not parse
+                sig = f"a scoped edit on a call-argument target emits text the next step cannot parse|wrapper={wrapper}"
             if kind == "idempotent" and not isinstance(s2, str) and any(o[2] == "v" for o in s2 if o[0] == "set"):
                 # one root cause, whatever the path: C11 makes the second `set` follow the reference the first one wrote
                 sig = (f"{sym}|the value written is a name bound in an enclosing scope: the second set follows the reference and rewrites "
